@@ -86,14 +86,14 @@ _inverters = {
     'type': _invert_type,
     'enum': lambda x: {'NOT_enum': x},
     'NOT_enum': lambda x: {'enum': x},
-    'maxLength': lambda x: {'type': ['string'], 'minLength': x},
-    'minLength': lambda x: {'type': ['string'], 'maxLength': x},
+    'maxLength': lambda x: {'type': ['string'], 'minLength': x + 1},
+    'minLength': lambda x: {'type': ['string'], 'maxLength': x - 1} if x > 0 else {'enum': []},
     'properties': _invert_properties,
     'multipleOf': lambda x: {'type': ['number'], 'NOT_multipleOf': x},
     'required': lambda x: {'type': ['object'], 'properties': {i: False for i in x}},
     'items': _invert_items,
-    'minItems': lambda x: {'type': 'array', 'maxItems': x},
-    'maxItems': lambda x: {'type': 'array', 'minItems': x},
+    'minItems': lambda x: {'type': 'array', 'maxItems': x - 1} if x > 0 else {'enum': []},
+    'maxItems': lambda x: {'type': 'array', 'minItems': x + 1},
     'pattern': lambda x: {'type': 'string', 'pattern': f"!({x})"},
     'format': lambda x: {},
 }
